@@ -789,6 +789,21 @@ func GenWatchShaped(t *rapid.T, o Opts, field, target string) Spec {
 	tf := flt(field, "=", []byte(target), uint32(len(target)), "string")
 	tf.IsStr = true
 	s.Filters = []Filter{tf, flt("perm", "=", []byte(p), v, "perm")}
+	// ... or one step away from that shape (the -w form can express none of these)
+	switch rapid.IntRange(0, 7).Draw(t, "nearwatch") {
+	case 1:
+		s.Prepend = true
+	case 2:
+		s.Action = "never"
+	case 3:
+		s.Filters[0].Op, s.Filters[0].OpC = "!=", uapi.A("AUDIT_NOT_EQUAL")
+	case 4:
+		s.Filters = append(s.Filters, flt("pid", "=", []byte("1"), 1, "num"))
+	case 5:
+		s.Filters[0], s.Filters[1] = s.Filters[1], s.Filters[0]
+	case 6:
+		s.Sys = []Sys{{Text: "2", Num: 2}}
+	}
 	if !s.Struct {
 		o.FlagsRoute = true
 	}
